@@ -9,8 +9,7 @@ Shared model of cffi's integer primitives (src/c/_cffi_backend.c).
     on little-endian bytes (919-978)
   * the integer branches of `convert_from_object` (1714-1739) and of
     `convert_to_object` / `cdata_int` (1085, 2306)
-  * `cast_to_integer_or_char` (4030) and the integer source of the pointer
-    branch of `do_cast` (4112)
+  (`ffi.cast` is modelled in `Model/IntCast.lean`, over `Generated/CastExprs.lean`)
 
 Conventions.  A Python `int` is an `Int` of any magnitude.  C values of the
 types `long long` / `unsigned long long` are `Int`s that the functions below
@@ -227,88 +226,6 @@ def readInt (T : IntType) (data : List UInt8) : Except ErrKind Int :=
   | .bool =>
     let value := readRawUnsigned obj
     if value = 0 then .ok 0 else if value = 1 then .ok 1 else .error .valueError
-
-/-! ### `ffi.cast` to an integer / character type -/
-
-/-- sources of `ffi.cast(T, x)` covered by C04 -/
-inductive CastSrc
-  | int (v : Int)                 -- Python int
-  | bool (b : Bool)               -- Python bool (an int subclass: PyLong_Check holds)
-  | float (m : Int) (e : Int)     -- the finite float `m * 2^e`
-  | bytes (bs : List UInt8)       -- bytes object
-  | str (cps : List Nat)          -- str as code points
-  | ptr (addr : Nat)              -- pointer / array / function cdata at `addr`
-  deriving Repr
-
-/-- Python's `int(x)` for the float `m * 2^e`: exact, truncating toward zero -/
-def floatTrunc (m e : Int) : Int :=
-  if e ≥ 0 then m * 2 ^ e.toNat else Int.tdiv m (2 ^ (-e).toNat)
-
-/-- the mathematical integer a source denotes after truncation toward zero
-(code point / byte / address for the non-numeric ones) -/
-def CastSrc.trunc : CastSrc → Option Int
-  | .int v => some v
-  | .bool b => some (if b then 1 else 0)
-  | .float m e => some (floatTrunc m e)
-  | .bytes [b] => some b.toNat
-  | .bytes _ => none
-  | .str [cp] => some cp
-  | .str _ => none
-  | .ptr a => some a
-
-/-- `x != 0` of the source itself (a float is non-zero even if it truncates to 0) -/
-def CastSrc.nonzero : CastSrc → Option Bool
-  | .int v => some (v != 0)
-  | .bool b => some b
-  | .float m _ => some (m != 0)
-  | .bytes [b] => some (b.toNat != 0)
-  | .bytes _ => none
-  | .str [cp] => some (cp != 0)
-  | .str _ => none
-  | .ptr a => some (a != 0)
-
-/-- the `unsigned long long value` at label `got_value` of `cast_to_integer_or_char` -/
-def castValue (T : IntType) : CastSrc → Except ErrKind Int
-  | .ptr a => .ok (wrapU 64 (wrapS 64 a))               -- `(Py_intptr_t)c_data`
-  | .str cps =>
-    match cps with
-    | [cp] =>
-      if T.kind = .swchar then .ok (wrapU 64 (wrapS 32 (wrapU 32 cp)))   -- `value = (wchar_t)ordinal`
-      else .ok (wrapU 32 cp)                                             -- `cffi_char32_t ordinal`
-    | _ => .error .typeError
-  | .bytes bs =>
-    match bs with
-    | [b] => .ok b.toNat                                 -- `(unsigned char)res`
-    | _ => .error .typeError
-  | .int v =>
-    if T.kind = .bool then .ok (if v ≠ 0 then 1 else 0)  -- `_PyLong_Sign(ob) != 0`
-    else .ok (myAsUnsignedLongLong v false).1
-  | .bool b =>
-    if T.kind = .bool then .ok (if b then 1 else 0)
-    else .ok (myAsUnsignedLongLong (if b then 1 else 0) false).1
-  | .float m e =>
-    if T.kind = .bool then .ok (if m ≠ 0 then 1 else 0)  -- `PyFloat_AS_DOUBLE(ob) != 0.0`
-    else .ok (myAsUnsignedLongLong (floatTrunc m e) false).1   -- nb_int, then mask
-
-/-- `cast_to_integer_or_char(ct, ob)`: the bytes of the new cdata -/
-def cast (T : IntType) (src : CastSrc) : Except ErrKind (List UInt8) :=
-  match castValue T src with
-  | .error e => .error e
-  | .ok value =>
-    let value := if T.kind = .bool then (if value ≠ 0 then 1 else 0) else value   -- `!!value`
-    .ok (writeRaw value T.width)
-
-/-- `int(ffi.cast(T, x))` -/
-def castInt (T : IntType) (src : CastSrc) : Except ErrKind Int :=
-  match cast T src with
-  | .error e => .error e
-  | .ok bs => readInt T bs
-
-/-- `ffi.cast("void *", n)` for a Python int `n` (also the value `int()` of an
-integer cdata yields): `_my_PyLong_AsUnsignedLongLong(ob, 0)`, then
-`(char *)(Py_intptr_t)value`.  Result: the address. -/
-def castToPointer (v : Int) : Nat :=
-  (wrapU 64 (wrapS 64 (myAsUnsignedLongLong v false).1)).toNat
 
 /-! ### the type table (x86-64 Linux, gcc/glibc) -/
 
